@@ -39,6 +39,13 @@ def correspondence(res, sizes):
     return cases, fails, stats
 
 
+def window_failures(cases):
+    """the remembered-header count after every tracker-driven delivery against Model.Monitor.win_trace"""
+    wc = [c for c in cases if c.get("wcoq")]
+    bad = lib.coq_failures(["Model.MonitorCheck"], "wcase", "check_window", [c["wcoq"] for c in wc], "c14w")
+    return wc, [wc[i] for i in bad]
+
+
 def slim(c):
     return {k: v for k, v in c.items() if k != "coq"}
 
@@ -47,9 +54,13 @@ def run(res):
     quick = res.tier == "quick"
     lib.proof_stage(res, "C14.v", "Props.C14", PINNED)
     cov = res.coverage
-    sizes = [("systematic", 260), ("random", 500), ("malformed", 260), ("burial", 3)] if quick else \
-            [("systematic", 100000), ("random", 20000), ("malformed", 6000), ("burial", 3)]
+    sizes = [("systematic", 260), ("random", 500), ("malformed", 260), ("burial", 3), ("window", 2)] if quick else \
+            [("systematic", 100000), ("random", 12000), ("malformed", 4000), ("burial", 3), ("window", 2)]
     cases, fails, stats = correspondence(res, sizes)
+    wcases, wfails = window_failures(cases)
+    if any(c.get("max_reorg_size") != 100 for c in cases):
+        res.violation("ChainTracker::MAX_REORG_SIZE is not the 100 of Model.Monitor.MAX_REORG_SIZE",
+                      {"observed": sorted({c.get("max_reorg_size") for c in cases})}, has_input=False)
     imports = ["Model.MonitorCheck"]
     # the property itself, on the implementation's answers (fresh replay of the surviving chain, no panic)
     mon = [c for c in cases if c.get("monitor_violation")]
@@ -70,6 +81,12 @@ def run(res):
                           {"correspondence": "monitor", "theorem": "C14_best_chain", "case": c, "model": model[-6000:],
                            "matches_model_of_unrepaired_code": "true" in old.split("=")[-1]},
                           has_input=False)
+    if not mon:
+        for c in wfails[:2]:
+            model = lib.coq_eval(imports, "win_trace winit (fst (%s))" % c["wcoq"], "c14w_show")
+            res.violation("the number of headers the tracker remembers (ChainTracker::headers) disagrees with Model.Monitor.win_trace "
+                          "(window of MAX_REORG_SIZE)", {"correspondence": "monitor-window", "theorem": "C14_window",
+                          "case": slim(c), "model": model[-3000:]}, has_input=False)
     nontrivial = {c["coq"] for c in cases if c.get("nontrivial") and c.get("admissible")}
     agg = {}
     for s in stats:
@@ -87,14 +104,18 @@ def run(res):
                 "then a reorg of depth 1..4 re-connecting the same blocks or their merge; random: walks over "
                 "{connect a block of 0-4 fitting transactions, disconnect (runs <= 4)}; malformed: the same with "
                 "double spends, a second close, a two-input close, children before parents, a commitment the signer "
-                "has no info for, and a stream without block start; burial: is_done at depth 99/100/99. Delivery "
+                "has no info for, and a stream without block start; burial: is_done at depth 99/100/99; window: 103 blocks connected, MAX_REORG_SIZE-1 back and forward again, "
+                "exactly MAX_REORG_SIZE back (all accepted, view of the first 3 blocks), one more (refused, nothing changes), "
+                "with and without a restart; every tracker-driven case also checks ChainTracker::headers.len() after each "
+                "delivery against the window model. Delivery "
                 "compact (SPV part with every transaction), watched (SPV part with what the tracker's watch sets match, empty for "
                 "unrelated blocks) or streamed, through the tracker or the listener interface; signer restarts (tracker, monitors "
                 "and channel persisted through KVVPersister/JSON, Node::restore_node) anywhere in the tracker-driven histories. A case is non-trivial when it is "
                 "admissible, contains a disconnection and at least two blocks; distinct by full history",
         "samples": sample,
         "traces_validated_against_impl": len(cases),
-        "correspondence_disagreements": len(fails),
+        "correspondence_disagreements": len(fails) + len(wfails),
+        "window_traces_checked": len(wcases),
         "monitor_failures": len(mon),
         "harness_stats": agg,
     })
